@@ -21,3 +21,7 @@ def gen_config(rng, tier):
 # reach guard: a full-size batch in which one of these never fired means the workload or the
 # harness has rotted (exit 2, never a pass)
 REQUIRED_REACH = ['config:circuit_roundtrip', 'config:layer_roundtrip', 'config:gate_roundtrip', 'roundtrip_circuit_compiled_2+gates', 'roundtrip_through_nontrivial_image', 'config:copy']
+
+
+def warm_extra():
+    circworld.warm_layouts()
